@@ -54,7 +54,9 @@ PROPS = {
              'a gate inside Tree.Save); start/end of each request are logged and TLC searches a linearisation of the recorded '
              'history in the trace specification; a crash of the store process ends the trace with an event no action matches.',
         note=_COMMON_NOTE + ' Concurrent leg: clients only commit / roll back their own pending updates and read roots whose '
-             'commit has returned; goroutine schedules are sampled.',
+             'commit has returned; goroutine schedules are sampled. Database writes never fail in any explored run: state '
+             'corruption after an I/O error that the process survives (e.g. nodes published to the shared node cache after a '
+             'failed batch write, seeded change C04-1) is outside what this check explores.',
     ),
 }
 
